@@ -87,6 +87,8 @@ def resolver_named(name):
 def typed_dict(t, d):
     return [t, pairs(d)]
 
+_PERSISTENT = {}
+
 def fs_roots():
     import posixpath
     from spil.sid.pathops.pathconfig import get_path_config
@@ -206,6 +208,10 @@ def do_fs(op, a):
             _os.replace = orig_rep
         return res
     if op == 'get_data_paths':
+        # the same Getter instance for the whole process (a new instance per call is op get_data_paths_new)
+        g = _PERSISTENT.setdefault(('getter', a[0]), GetFromPaths(a[0] or None))
+        return with_sid(a[1], lambda x: out(lambda: t_record(g.get_data(x, attributes=list(a[2]) or None, sid_encode=enc_fn(a[3])))))
+    if op == 'get_data_paths_new':
         return with_sid(a[1], lambda x: out(lambda: t_record(GetFromPaths(a[0] or None).get_data(x, attributes=list(a[2]) or None, sid_encode=enc_fn(a[3])))))
     if op == 'publish_chain':
         def f():
